@@ -33,8 +33,8 @@ func (q *QueryRangeController) QueryRange(w http.ResponseWriter, r *http.Request
 		return
 	}
 
-	start, err := getRequiredFloat(r, "start", "", nil)
-	end, err := getRequiredFloat(r, "end", "", err)
+	start, err := getRequiredNs(r, "start", "", nil)
+	end, err := getRequiredNs(r, "end", "", err)
 	step, err := getRequiredDuration(r, "step", "1", err)
 	direction := r.URL.Query().Get("direction")
 	//if direction == "" {
@@ -62,7 +62,7 @@ func (q *QueryRangeController) QueryRange(w http.ResponseWriter, r *http.Request
 		PromError(400, "end timestamp must not be before start time", w)
 		return
 	}
-	ch, err := q.QueryRangeService.QueryRange(internalCtx, query, int64(start), int64(end), int64(step*1000),
+	ch, err := q.QueryRangeService.QueryRange(internalCtx, query, start, end, int64(step*1000),
 		limit, direction == "forward")
 	if err != nil {
 		PromError(500, err.Error(), w)
